@@ -552,12 +552,16 @@ Fixpoint gaps_geb (g : Z) (ts : list Z) : bool :=
 (* ------------------------------------------------------------------ how often the reporter reports (F18) *)
 
 (* what ends the wait of one round of statsReporter: an update command after w ms, some other
-   message after w ms, or the StatsEvery timer *)
-Inductive round := RUpdate (w : Z) | RNoise (w : Z) | RTick.
+   message after w ms, a first message that json.Unmarshal refuses (plain text, binary, empty) after
+   w ms, or the StatsEvery timer.  A refused message leaves the command variable as the previous
+   message set it, so such a round behaves like an update round when the last decoded command was
+   "update" ([stale_update]) and like a round of other messages otherwise; in both cases the rest
+   of the queue is drained and the "report is due" test follows *)
+Inductive round := RUpdate (w : Z) | RNoise (w : Z) | RGarbled (w : Z) (stale_update : bool) | RTick.
 
 Definition round_len (every : Z) (r : round) : Z :=
   (rate_limit_ms + match r with
-                   | RUpdate w | RNoise w => Z.max 0 (Z.min w every)
+                   | RUpdate w | RNoise w | RGarbled w _ => Z.max 0 (Z.min w every)
                    | RTick => Z.max 0 every
                    end)%Z.
 
@@ -570,7 +574,7 @@ Fixpoint silences (due_check : bool) (every now last : Z) (rs : list round) : li
   | r :: rest =>
     let now' := (now + round_len every r)%Z in
     let reports := match r with
-                   | RNoise _ => due_check && (every <=? now' - last)%Z
+                   | RNoise _ | RGarbled _ false => due_check && (every <=? now' - last)%Z
                    | _ => true
                    end in
     let last' := if reports then now' else last in
